@@ -75,6 +75,19 @@ macro_rules! ints {
         } else {
             // values that differ in exactly one byte position, and random ones
             for sh in (0..(8 * std::mem::size_of::<$t>())).step_by(8) { c.push((1 as $t) << sh); c.push(((1 as $t) << sh).wrapping_add(1)); }
+            // both sides of every byte / half-word / word / double-word boundary (where a comparison that works on parts of
+            // the value changes parts, and where a part's top bit flips), with their negations
+            for b in [7usize, 8, 15, 16, 31, 32, 63, 64] {
+                if b < 8 * std::mem::size_of::<$t>() {
+                    let p = (1 as $t) << b;
+                    for v in [p.wrapping_sub(1), p, p.wrapping_add(1)] {
+                        c.push(v);
+                        c.push((0 as $t).wrapping_sub(v));
+                        // the same low part under a non-zero high part
+                        c.push(v ^ (<$t>::MAX / 3).wrapping_shl((b + 1) as u32 % (8 * std::mem::size_of::<$t>() as u32)));
+                    }
+                }
+            }
             while c.len() < $size { c.push($rng.random::<$t>()); }
         }
         c.sort(); c.dedup();
